@@ -294,7 +294,9 @@ def run(ctx):
         partial=["Learner1D (exact recomputation) and AverageLearner: restore-bisimilarity is proved - the restored learner and the original "
                  "agree on losses and on the answer to every later ask after EVERY common continuation (l1d_restore_bisimilar, "
                  "avg_restore_bisimilar; the hypothesis 'no pending points' is necessary: kernel-checked counterexamples); "
-                 "LearnerND / IntegratorLearner / AverageLearner1D / Learner2D have no Lean model of _get_data/_set_data: twin oracle only"],
+                 "Learner2D (L2D.lean): file / copy_from restore = same data with the stack replaced by the unevaluated corners, pickle without "
+                 "pending points = the same state (proved; the later suggestions after a FILE restore differ by the recorded stack finding); "
+                 "LearnerND / IntegratorLearner / AverageLearner1D have no Lean model of _get_data/_set_data: twin oracle only"],
     )
 
 
